@@ -13,6 +13,21 @@ DEV_NOTE = ("Trusted: TLC, the transcription of the device rules into Devices.tl
             "built per behaviour and every terminal is read after every action); timestamps are ranks mapped monotonically to i64; "
             "numeric agreement within 2^-16 of the largest magnitude in the behaviour.")
 CLAIMS = {
+ "C15": dict(design_ref="DESIGN.md section 4, C15",
+    text="Settable.tla models set / last request / follow / stop_following / update_following_data with a failing-or-succeeding impl_set, the "
+         "GetterFromHistory constructors with set_delta / set_time over a history that returns the time it was asked for, ConstantGetter and "
+         "TimeGetterFromGetter; TLC checks the bookkeeping invariant and the action laws (forward only present values while following; each "
+         "constructor maps the chosen instant to the chosen history time) on every sequence up to the bound and random sequences of 40; all "
+         "are replayed on the trait's provided methods (probe settable), on the crate's ConstantGetter and on real adapters under affine "
+         "clock maps reaching the i64 limits.",
+    note="Trusted: TLC, Settable.tla, the harness.", technique=TECH),
+ "C20": dict(design_ref="DESIGN.md section 4, C20",
+    text="Wrappers.tla models the three device wrappers over a terminal connected to an external terminal; the PID wrapper embeds the CommandPID "
+         "machine of PIDMath.tla (the definition checked for C11). TLC checks the action laws (the inner settable receives exactly the data "
+         "seen; the encoder writes exactly the getter's present state) on every round sequence up to the bound; behaviours are replayed on the "
+         "real wrappers with recording inner objects, and the PID wrapper's motor inputs are compared bit for bit with a real stand-alone "
+         "CommandPID fed what the terminal showed.",
+    note="Trusted: TLC, Wrappers.tla / PIDMath.tla, the harness.", technique=TECH),
  "C06": dict(design_ref="DESIGN.md section 4, C06",
     text="ProfilePhases.tla defines what the six accessors must agree on as a function of the comparisons of t with 0, t1, t2, t3 and of the "
          "end command's kind; TLC checks monotone pieces and the mode laws over all comparison patterns. Bound to the code both ways: every move "
